@@ -127,7 +127,7 @@ func (c *c12) l1Matrix(env *L1Env, past map[string][]string, log []string) {
 }
 
 func (c *c12) l1(thorough bool) {
-	states := pick(thorough, 200, 3000)
+	states := pick(thorough, 200, 8000)
 	env := newL1Env(2, []time.Duration{time.Hour, time.Hour})
 	past := map[string][]string{}
 	var log []string
@@ -430,7 +430,7 @@ func (c *c12) binding(thorough bool) {
 }
 
 func (c *c12) l2(thorough bool) {
-	states := pick(thorough, 150, 2500)
+	states := pick(thorough, 150, 6000)
 	o := newOracleEnv([]int64{1, 1, 1}, []string{"BTC/USD"})
 	l2 := o.L2
 	l2.FundModule(authtypes.FeeCollectorName, sdk.NewCoin("ufee", math.NewInt(1_000_000)))
